@@ -176,7 +176,7 @@ func accept(c Case, h []event, final bool) *result {
 		ackOK     = map[int]bool{}    // seq of connection_ack events that answer an accepted init
 		connErrOK = map[int]bool{}
 		curMsg    = -1
-		lastW     *event           // previous message written to the client
+		lastW     *event             // previous message written to the client
 		pendErr   = map[string]int{} // by id: 1 + message index of the executor whose Execute returned an error most recently and whose error message is due
 	)
 	// subject is the operation id the event being judged is about ("" = connection level).
